@@ -117,49 +117,186 @@ Proof.
   rewrite strip_suffix_app by assumption. rewrite strip_suffix_plain by assumption. reflexivity.
 Qed.
 
-(* ---- the handlers: the store is reached only through a successful check ---- *)
-
-(* Proceed v f: v,f are parseURLPath's reading of the path, the check passed on them, and for an
-   upload the needle CreateNeedleFromRequest built is the needle f denotes (rq_same_needle) *)
-Theorem proceed_authorized : forall tab cfg rq v f, handle tab cfg rq = Proceed v f ->
-  parse_url_path (rq_path rq) = Some (v, f) /\
-  check_jwt tab cfg (is_write_method (rq_method rq)) rq v f = true /\
-  (is_upload (rq_method rq) = true -> rq_same_needle rq = true) /\
-  (is_write_method (rq_method rq) = true -> rq_public rq = false /\ whitelist_blocks cfg rq = false).
+(* ---- the numeric parsers ---- *)
+Lemma parse_uint_bound : forall h b s v, parse_uint h b s = Some v -> (v < 2 ^ b)%N.
 Proof.
-  intros tab cfg rq v f H. unfold handle in *.
-  destruct (rq_method rq) eqn:Em; simpl.
-  - unfold get_or_head in H. destruct (parse_url_path (rq_path rq)) as [[vid fid]|]; [|discriminate].
-    destruct (check_jwt tab cfg false rq vid fid) eqn:Ec; simpl in H; [|discriminate].
-    destruct (rq_vid_ok rq); simpl in H; [|discriminate]. destruct (rq_fid_ok rq); simpl in H; [|discriminate].
-    injection H as <- <-. repeat split; auto; discriminate.
-  - unfold get_or_head in H. destruct (parse_url_path (rq_path rq)) as [[vid fid]|]; [|discriminate].
-    destruct (check_jwt tab cfg false rq vid fid) eqn:Ec; simpl in H; [|discriminate].
-    destruct (rq_vid_ok rq); simpl in H; [|discriminate]. destruct (rq_fid_ok rq); simpl in H; [|discriminate].
-    injection H as <- <-. repeat split; auto; discriminate.
-  - destruct (rq_public rq); [discriminate|]. destruct (whitelist_blocks cfg rq); [discriminate|].
-    unfold post in H. destruct (parse_url_path (rq_path rq)) as [[vid fid]|]; [|discriminate].
-    destruct (rq_vid_ok rq); simpl in H; [|discriminate].
-    destruct (check_jwt tab cfg true rq vid fid) eqn:Ec; simpl in H; [|discriminate].
-    destruct (upload_fid (rq_path rq)) as [u|]; [|discriminate].
-    destruct (rq_upfid_ok rq); simpl in H; [|discriminate].
-    destruct (rq_same_needle rq); simpl in H; [|discriminate].
-    injection H as <- <-. repeat split; auto.
-  - destruct (rq_public rq); [discriminate|]. destruct (whitelist_blocks cfg rq); [discriminate|].
-    unfold post in H. destruct (parse_url_path (rq_path rq)) as [[vid fid]|]; [|discriminate].
-    destruct (rq_vid_ok rq); simpl in H; [|discriminate].
-    destruct (check_jwt tab cfg true rq vid fid) eqn:Ec; simpl in H; [|discriminate].
-    destruct (upload_fid (rq_path rq)) as [u|]; [|discriminate].
-    destruct (rq_upfid_ok rq); simpl in H; [|discriminate].
-    destruct (rq_same_needle rq); simpl in H; [|discriminate].
-    injection H as <- <-. repeat split; auto.
-  - destruct (rq_public rq); [discriminate|]. destruct (whitelist_blocks cfg rq); [discriminate|].
-    unfold delete in H. destruct (parse_url_path (rq_path rq)) as [[vid fid]|]; [|discriminate].
-    destruct (check_jwt tab cfg true rq vid fid) eqn:Ec; simpl in H; [|discriminate].
-    injection H as <- <-. repeat split; auto; discriminate.
+  intros h b s v H. unfold parse_uint in H. destruct (sempty s); [discriminate|].
+  destruct (parse_digits h s 0) as [x|]; [|discriminate].
+  destruct (x <? 2 ^ b)%N eqn:E; [|discriminate]. injection H as <-. apply N.ltb_lt. assumption.
 Qed.
 
-Definition is_proceed (o : hresult) : bool := match o with Proceed _ _ => true | _ => false end.
+Lemma parse_nic_bound : forall s id ck, parse_nic s = Some (id, ck) -> (id < 2 ^ 64)%N.
+Proof.
+  intros s id ck H. unfold parse_nic in H.
+  destruct (Nat.leb (String.length s) 8); [discriminate|]. destruct (Nat.ltb 24 (String.length s)); [discriminate|].
+  destruct (parse_uint true 64 (substring 0 (String.length s - 8) s)) as [x|] eqn:E1; [|discriminate].
+  destruct (parse_uint true 32 (substring (String.length s - 8) 8 s)) as [y|]; [|discriminate].
+  injection H as <- <-. eapply parse_uint_bound; eassumption.
+Qed.
+
+Lemma parse_nic_long : forall s p, parse_nic s = Some p -> Nat.leb (String.length s) 8 = false.
+Proof. intros s p H. unfold parse_nic in H. destruct (Nat.leb (String.length s) 8); [discriminate|reflexivity]. Qed.
+
+Lemma strip_split : forall f, strip_suffix f = fst (split_delta f).
+Proof. intros f. unfold strip_suffix, split_delta. destruct (last_index_nat c_us f) as [[|i]|]; reflexivity. Qed.
+
+Lemma substring_length_le : forall s n m, String.length (substring n m s) <= String.length s.
+Proof.
+  induction s as [|c s IH]; intros [|n] [|m]; simpl; try lia.
+  - pose proof (IH 0 m). lia.
+  - pose proof (IH n 0). lia.
+  - pose proof (IH n (S m)). lia.
+Qed.
+
+Lemma strip_suffix_len : forall f, String.length (strip_suffix f) <= String.length f.
+Proof.
+  intros f. unfold strip_suffix. destruct (last_index_nat c_us f) as [[|i]|]; try lia. apply substring_length_le.
+Qed.
+
+(* a successful ParsePath: the base (what the token check compares) parses, the delta is added *)
+Lemma parse_path_st_ok : forall f st, parse_path_st f = (st, true) ->
+  exists id ck d, parse_nic (strip_suffix f) = Some (id, ck) /\ st = (((id + d) mod 2 ^ 64)%N, ck).
+Proof.
+  intros f st H. unfold parse_path_st in H. destruct (Nat.leb (String.length f) 8); [discriminate|].
+  rewrite strip_split. destruct (split_delta f) as [base delta]. simpl fst.
+  destruct (parse_nic base) as [[id ck]|] eqn:En; [|discriminate].
+  destruct (sempty delta).
+  - injection H as <-. exists id, ck, 0%N. split; [reflexivity|].
+    rewrite N.add_0_r, N.mod_small; [reflexivity|]. eapply parse_nic_bound; eassumption.
+  - destruct (parse_uint false 64 delta) as [d|]; [|discriminate]. injection H as <-.
+    exists id, ck, d. split; reflexivity.
+Qed.
+
+(* whatever ParsePath leaves in n when the base parses: the base's needle, plus a delta *)
+Lemma parse_path_st_base : forall f id ck, parse_nic (strip_suffix f) = Some (id, ck) ->
+  exists d, fst (parse_path_st f) = (((id + d) mod 2 ^ 64)%N, ck).
+Proof.
+  intros f id ck H. unfold parse_path_st.
+  pose proof (parse_nic_long _ _ H) as Hl. pose proof (strip_suffix_len f) as Hs.
+  destruct (Nat.leb (String.length f) 8) eqn:El.
+  - apply Nat.leb_le in El. apply Nat.leb_gt in Hl. lia.
+  - rewrite strip_split in H. destruct (split_delta f) as [base delta]. simpl fst in H. rewrite H.
+    assert (Hz : (((id + 0) mod 2 ^ 64)%N, ck) = (id, ck)).
+    { rewrite N.add_0_r, N.mod_small; [reflexivity|]. eapply parse_nic_bound; eassumption. }
+    destruct (sempty delta); [exists 0%N; cbn [fst]; symmetry; exact Hz|].
+    destruct (parse_uint false 64 delta) as [d|]; [exists d; reflexivity|exists 0%N; cbn [fst]; symmetry; exact Hz].
+Qed.
+
+Lemma substring_full : forall y, substring 0 (String.length y) y = y.
+Proof. induction y as [|c y IH]; simpl; [reflexivity|rewrite IH; reflexivity]. Qed.
+
+Lemma substring_skip : forall x c y,
+  substring (S (String.length x)) (String.length (x ++ String c y) - S (String.length x)) (x ++ String c y) = y.
+Proof.
+  induction x as [|a x IH]; intros c y.
+  - cbn [String.length append substring]. rewrite Nat.sub_succ, Nat.sub_0_r. apply substring_full.
+  - cbn [String.length append]. rewrite Nat.sub_succ.
+    change (substring (S (S (String.length x))) (String.length (x ++ String c y) - S (String.length x)) (String a (x ++ String c y)))
+      with (substring (S (String.length x)) (String.length (x ++ String c y) - S (String.length x)) (x ++ String c y)).
+    apply IH.
+Qed.
+
+Lemma digits_no_comma : forall v acc r b, parse_digits false v acc = Some r ->
+  index_nat c_comma (v ++ String c_comma b) = Some (String.length v).
+Proof.
+  induction v as [|c v IH]; intros acc r b H.
+  - reflexivity.
+  - cbn [parse_digits] in H. destruct (digit_of false c) as [d|] eqn:Ed; [|discriminate].
+    cbn [append index_nat String.length]. destruct (Ascii.eqb c c_comma) eqn:Ec.
+    + apply Ascii.eqb_eq in Ec. subst c. vm_compute in Ed. discriminate.
+    + rewrite (IH _ _ b H). reflexivity.
+Qed.
+
+(* the claim text "<vid>,<base>" denotes, for needle.ParseFileIdFromString, exactly the numbers that
+   NewVolumeId and ParseNeedleIdCookie read from its two halves *)
+Theorem claim_den_app : forall v b vol id ck,
+  parse_vid v = Some vol -> parse_nic b = Some (id, ck) -> claim_den (v ++ "," ++ b) = Some (vol, id, ck).
+Proof.
+  intros v b vol id ck Hv Hb. unfold claim_den.
+  change (v ++ "," ++ b) with (v ++ String c_comma b).
+  pose proof Hv as Hv'. unfold parse_vid, parse_uint in Hv'.
+  destruct (sempty v) eqn:Ev; [discriminate|].
+  destruct (parse_digits false v 0) as [x|] eqn:Ed; [|discriminate].
+  rewrite (digits_no_comma v 0%N x b Ed).
+  destruct v as [|c v0]; [discriminate|].
+  cbn [String.length].
+  pose proof (substring_prefix (String c v0) (String c_comma b)) as P1. cbn [String.length] in P1. rewrite P1.
+  pose proof (substring_skip (String c v0) c_comma b) as P2. cbn [String.length] in P2. rewrite P2.
+  rewrite Hv, Hb. reflexivity.
+Qed.
+
+(* a file id without underscore is read by ParsePath as ParseNeedleIdCookie reads it *)
+Lemma parse_path_plain : forall f id ck, no_us f = true -> parse_path f = Some (id, ck) -> parse_nic f = Some (id, ck).
+Proof.
+  intros f id ck Hn H. unfold parse_path, parse_path_st in H.
+  destruct (Nat.leb (String.length f) 8); [discriminate|].
+  unfold split_delta in H. rewrite (last_us_none f Hn) in H.
+  destruct (parse_nic f) as [[i c]|]; [|discriminate]. simpl in H. assumption.
+Qed.
+
+(* "<base>_<n>" addresses needle id + n (mod 2^64) with the cookie of <base> *)
+Theorem parse_path_suffix_adds : forall base n id ck d,
+  no_us n = true -> n <> "" -> parse_nic base = Some (id, ck) -> parse_uint false 64 n = Some d ->
+  parse_path (base ++ String c_us n) = Some (((id + d) mod 2 ^ 64)%N, ck).
+Proof.
+  intros base n id ck d Hn Hne Hb Hd. unfold parse_path, parse_path_st.
+  pose proof (parse_nic_long _ _ Hb) as Hl.
+  assert (Hlen : String.length (base ++ String c_us n) = String.length base + S (String.length n)).
+  { clear. induction base as [|c b IH]; simpl; [reflexivity|rewrite IH; reflexivity]. }
+  destruct (Nat.leb (String.length (base ++ String c_us n)) 8) eqn:El.
+  { apply Nat.leb_le in El. apply Nat.leb_gt in Hl. lia. }
+  unfold split_delta. rewrite (last_us_app base n Hn).
+  destruct base as [|c b]; [discriminate|].
+  cbn [String.length].
+  pose proof (substring_prefix (String c b) (String c_us n)) as P1. cbn [String.length] in P1. rewrite P1.
+  pose proof (substring_skip (String c b) c_us n) as P2. cbn [String.length] in P2. rewrite P2.
+  rewrite Hb. destruct n as [|a n0]; [congruence|]. cbn [sempty]. rewrite Hd. reflexivity.
+Qed.
+
+(* ---- the handlers: the store is reached only through a successful check ---- *)
+
+(* Proceed v f a: v,f are parseURLPath's reading of the path, the check passed on them; a is, for a read,
+   what NewVolumeId / ParsePath make of v / f; for an upload the needle CreateNeedleFromRequest built
+   from its own reading of the path, which equals ParsePath f; for a delete whatever the two parsers
+   left behind, errors ignored *)
+Theorem proceed_authorized : forall tab cfg rq v f a, handle tab cfg rq = Proceed v f a ->
+  parse_url_path (rq_path rq) = Some (v, f) /\
+  check_jwt tab cfg (is_write_method (rq_method rq)) rq v f = true /\
+  (is_delete (rq_method rq) = false ->
+     exists vol id ck, parse_vid v = Some vol /\ parse_path f = Some (id, ck) /\ a = (vol, id, ck)) /\
+  (is_upload (rq_method rq) = true ->
+     exists u, upload_fid (rq_path rq) = Some u /\ parse_path u = parse_path f) /\
+  (is_delete (rq_method rq) = true ->
+     a = (match parse_vid v with Some x => x | None => 0%N end,
+          fst (fst (parse_path_st f)), snd (fst (parse_path_st f)))) /\
+  (is_write_method (rq_method rq) = true -> rq_public rq = false /\ whitelist_blocks cfg rq = false).
+Proof.
+  intros tab cfg rq v f a H. unfold handle in *.
+  destruct (rq_method rq) eqn:Em; cbn [is_delete is_upload is_write_method].
+  1,2: unfold get_or_head in H; destruct (parse_url_path (rq_path rq)) as [[vid fid]|]; [|discriminate];
+       destruct (check_jwt tab cfg false rq vid fid) eqn:Ec; simpl in H; [|discriminate];
+       destruct (parse_vid vid) as [vol|] eqn:Ev; [|discriminate];
+       destruct (parse_path fid) as [[id ck]|] eqn:Ep; [|discriminate];
+       injection H as <- <- <-; repeat split; auto; try discriminate;
+       intros _; exists vol, id, ck; rewrite Ev; auto.
+  1,2: destruct (rq_public rq); [discriminate|]; destruct (whitelist_blocks cfg rq); [discriminate|];
+       unfold post in H; destruct (parse_url_path (rq_path rq)) as [[vid fid]|]; [|discriminate];
+       destruct (parse_vid vid) as [vol|] eqn:Ev; [|discriminate];
+       destruct (check_jwt tab cfg true rq vid fid) eqn:Ec; simpl in H; [|discriminate];
+       destruct (upload_fid (rq_path rq)) as [u|]; [|discriminate];
+       destruct (parse_path u) as [[uid uck]|] eqn:Eu; [|discriminate];
+       destruct (parse_path fid) as [[id ck]|] eqn:Ep; [|discriminate];
+       destruct ((id =? uid) && (ck =? uck))%N eqn:Ee; [|discriminate];
+       apply andb_true_iff in Ee; destruct Ee as [E1 E2]; apply N.eqb_eq in E1, E2; subst uid uck;
+       injection H as <- <- <-; repeat split; auto; try discriminate;
+       [intros _; exists vol, id, ck; rewrite Ev, Ep; auto | intros _; exists u; rewrite Ep; auto].
+  destruct (rq_public rq); [discriminate|]. destruct (whitelist_blocks cfg rq); [discriminate|].
+  unfold delete in H. destruct (parse_url_path (rq_path rq)) as [[vid fid]|]; [|discriminate].
+  destruct (check_jwt tab cfg true rq vid fid) eqn:Ec; simpl in H; [|discriminate].
+  injection H as <- <- <-. repeat split; auto; discriminate.
+Qed.
+
+Definition is_proceed (o : hresult) : bool := match o with Proceed _ _ _ => true | _ => false end.
 
 (* a refused request is answered 401 (or 400 for an upload whose volume id does not parse,
    or is not routed at all on the public port): the store step is not reached *)
@@ -167,7 +304,7 @@ Theorem reject_before_touch : forall tab cfg rq vid fid,
   parse_url_path (rq_path rq) = Some (vid, fid) ->
   check_jwt tab cfg (is_write_method (rq_method rq)) rq vid fid = false ->
   handle tab cfg rq = Unauthorized \/
-  (handle tab cfg rq = BadRequest /\ is_upload (rq_method rq) = true /\ rq_vid_ok rq = false) \/
+  (handle tab cfg rq = BadRequest /\ is_upload (rq_method rq) = true /\ parse_vid vid = None) \/
   (handle tab cfg rq = NoRoute /\ is_write_method (rq_method rq) = true /\ rq_public rq = true).
 Proof.
   intros tab cfg rq vid fid Hp H. unfold handle in *.
@@ -176,10 +313,10 @@ Proof.
   - left. unfold get_or_head. rewrite Hp, H. reflexivity.
   - destruct (rq_public rq); [right; right; auto|].
     destruct (whitelist_blocks cfg rq); [left; reflexivity|].
-    unfold post. rewrite Hp. destruct (rq_vid_ok rq); simpl; [|right; left; auto]. rewrite H. left. reflexivity.
+    unfold post. rewrite Hp. destruct (parse_vid vid); simpl; [|right; left; auto]. rewrite H. left. reflexivity.
   - destruct (rq_public rq); [right; right; auto|].
     destruct (whitelist_blocks cfg rq); [left; reflexivity|].
-    unfold post. rewrite Hp. destruct (rq_vid_ok rq); simpl; [|right; left; auto]. rewrite H. left. reflexivity.
+    unfold post. rewrite Hp. destruct (parse_vid vid); simpl; [|right; left; auto]. rewrite H. left. reflexivity.
   - destruct (rq_public rq); [right; right; auto|].
     destruct (whitelist_blocks cfg rq); [left; reflexivity|].
     unfold delete. rewrite Hp, H. left. reflexivity.
@@ -203,83 +340,149 @@ Proof.
     destruct (rq_public rq); try reflexivity; destruct (whitelist_blocks cfg rq); reflexivity.
 Qed.
 
-(* an upload whose own reading of the path gives another needle than the checked fid is refused
-   (the repair of finding C34/0) *)
-Theorem upload_other_needle_refused : forall tab cfg rq,
-  is_upload (rq_method rq) = true -> rq_same_needle rq = false ->
+(* an upload whose own reading of the path gives another needle than the checked fid (or none) is
+   refused (the repair in PostHandler) *)
+Theorem upload_other_needle_refused : forall tab cfg rq v f u,
+  is_upload (rq_method rq) = true ->
+  parse_url_path (rq_path rq) = Some (v, f) -> upload_fid (rq_path rq) = Some u ->
+  parse_path u <> parse_path f ->
   is_proceed (handle tab cfg rq) = false.
 Proof.
-  intros tab cfg rq Hu Hs. unfold handle.
-  destruct (rq_method rq); try discriminate;
-    (destruct (rq_public rq); [reflexivity|]; destruct (whitelist_blocks cfg rq); [reflexivity|];
-     unfold post; destruct (parse_url_path (rq_path rq)) as [[vid fid]|]; [|reflexivity];
-     destruct (rq_vid_ok rq); [|reflexivity]; simpl;
-     destruct (check_jwt tab cfg true rq vid fid); [|reflexivity]; simpl;
-     destruct (upload_fid (rq_path rq)); [|reflexivity];
-     destruct (rq_upfid_ok rq); [|reflexivity]; simpl; rewrite Hs; reflexivity).
+  intros tab cfg rq v f u Hu Hp Hf Hne.
+  destruct (handle tab cfg rq) as [| | | |v' f' a] eqn:Eh; try reflexivity.
+  apply proceed_authorized in Eh. destruct Eh as [Hp' [_ [_ [Hup _]]]].
+  rewrite Hp in Hp'. injection Hp' as <- <-.
+  destruct (Hup Hu) as [u' [Hf' He]]. rewrite Hf in Hf'. injection Hf' as <-. contradiction.
 Qed.
 
 (* c34_accept_sound, FULL: with the key of the request's class configured, the store is reached
    only with a present, well-formed, unexpired HMAC token signed with THAT key whose claim is
-   textually "<vid>,<fid without _suffix>" of the file the store is addressed with *)
-Theorem accept_sound : forall tab cfg rq v f,
+   textually "<vid>,<fid without _suffix>" of the file the path names *)
+Theorem accept_sound : forall tab cfg rq v f a,
   key_for cfg (is_write_method (rq_method rq)) <> "" ->
-  handle tab cfg rq = Proceed v f ->
+  handle tab cfg rq = Proceed v f a ->
   valid_token_for tab (key_for cfg (is_write_method (rq_method rq))) rq (v ++ "," ++ strip_suffix f).
 Proof.
-  intros tab cfg rq v f Hk H. apply proceed_authorized in H.
+  intros tab cfg rq v f a Hk H. apply proceed_authorized in H.
   destruct H as [Hp [Hc _]]. apply check_jwt_sound; assumption.
 Qed.
 
-(* the model's acceptance implies the reference used by the correspondence check, if a claim
-   that is textually "<vid>,<fid>" of the addressed file names it (hypothesis on the oracle bit) *)
-Theorem proceed_allowed : forall tab cfg rq presented v f,
-  In (get_jwt rq) presented ->
-  (forall t, lookup (get_jwt rq) tab = Some t ->
-             t_fid t = v ++ "," ++ strip_suffix f -> t_names_target t = true) ->
-  handle tab cfg rq = Proceed v f -> spec_allows tab cfg rq presented = true.
+(* ---- "the claim names the target file", as numbers ---- *)
+
+(* PARTIAL (finding C34/0 excluded): the text the token had to repeat denotes, for the file id parser
+   ParseFileIdFromString, the volume and cookie the store operation is called with, and the needle id up
+   to the added _delta *)
+Theorem proceed_names_target : forall tab cfg rq v f a,
+  handle tab cfg rq = Proceed v f a -> trig_delete_unparsed rq = false ->
+  exists vol id ck d, claim_den (v ++ "," ++ strip_suffix f) = Some (vol, id, ck) /\
+                      a = (vol, ((id + d) mod 2 ^ 64)%N, ck).
 Proof.
-  intros tab cfg rq presented v f Hin Hnt H. unfold spec_allows.
-  destruct (sempty (key_for cfg (is_write_method (rq_method rq)))) eqn:Ek; [reflexivity|].
-  simpl. apply sempty_false in Ek.
-  destruct (accept_sound tab cfg rq v f Ek H) as [t [H1 [H2 [H3 [H4 [H5 [H6 [H7 [H8 H9]]]]]]]]].
-  apply existsb_exists. exists (get_jwt rq). split; [assumption|].
-  rewrite H2. unfold token_good. rewrite (Hnt t H2 H9).
-  unfold decode_ok. rewrite H3, H4, H5, H6, H7, H8, String.eqb_refl. reflexivity.
+  intros tab cfg rq v f a H Ht. apply proceed_authorized in H.
+  destruct H as [Hp [_ [Hnd [_ [Hd _]]]]].
+  destruct (is_delete (rq_method rq)) eqn:Ed.
+  - unfold trig_delete_unparsed in Ht. rewrite Ed, Hp in Ht. simpl in Ht.
+    unfold request_den in Ht. rewrite Hp in Ht.
+    destruct (parse_vid v) as [vol|] eqn:Ev; [|discriminate].
+    destruct (parse_nic (strip_suffix f)) as [[id ck]|] eqn:En; [|discriminate].
+    destruct (parse_path_st_base f id ck En) as [d Hst].
+    exists vol, id, ck, d. split; [apply claim_den_app; assumption|].
+    rewrite (Hd eq_refl), Hst. reflexivity.
+  - destruct (Hnd eq_refl) as [vol [id' [ck [Ev [Epp ->]]]]].
+    unfold parse_path in Epp. destruct (parse_path_st f) as [st ok] eqn:Est.
+    destruct ok; [|discriminate]. injection Epp as ->.
+    destruct (parse_path_st_ok f _ Est) as [id [ck0 [d [En Hst]]]]. injection Hst as -> ->.
+    exists vol, id, ck0, d. split; [apply claim_den_app; assumption|reflexivity].
 Qed.
 
-(* ---- the former witness of finding C34/0: a token for file 1, an upload path whose file name
-   carries file 2 — now answered 400 before the store ---- *)
+(* with a token: its claim denotes the addressed volume, cookie and (up to the delta) needle *)
+Theorem accept_names_target : forall tab cfg rq v f a,
+  key_for cfg (is_write_method (rq_method rq)) <> "" ->
+  handle tab cfg rq = Proceed v f a -> trig_delete_unparsed rq = false ->
+  exists t vol id ck d, lookup (get_jwt rq) tab = Some t /\
+     decode_ok (key_for cfg (is_write_method (rq_method rq))) t = true /\
+     claim_den (t_fid t) = Some (vol, id, ck) /\ a = (vol, ((id + d) mod 2 ^ 64)%N, ck).
+Proof.
+  intros tab cfg rq v f a Hk H Ht.
+  destruct (accept_sound tab cfg rq v f a Hk H) as [t [H1 [H2 [H3 [H4 [H5 [H6 [H7 [H8 H9]]]]]]]]].
+  destruct (proceed_names_target tab cfg rq v f a H Ht) as [vol [id [ck [d [Hc Ha]]]]].
+  exists t, vol, id, ck, d. repeat split; auto.
+  - unfold decode_ok. rewrite H3, H4, H5, H6, H7, H8, String.eqb_refl. reflexivity.
+  - rewrite H9. assumption.
+Qed.
+
+(* a file id without a _suffix (reads and uploads): the claim denotes exactly the addressed needle *)
+Theorem proceed_names_exact : forall tab cfg rq v f a,
+  handle tab cfg rq = Proceed v f a -> is_delete (rq_method rq) = false -> no_us f = true ->
+  claim_den (v ++ "," ++ strip_suffix f) = Some a.
+Proof.
+  intros tab cfg rq v f a H Hd Hn. apply proceed_authorized in H.
+  destruct H as [_ [_ [Hnd _]]]. destruct (Hnd Hd) as [vol [id [ck [Ev [Ep ->]]]]].
+  rewrite (strip_suffix_plain f Hn). apply claim_den_app; [assumption|].
+  apply parse_path_plain; assumption.
+Qed.
+
+(* ---- finding C34/0: DeleteHandler ignores the parse errors ---- *)
 Definition w_key : string := "wkey".
-Definition w_tok : token :=
+Definition mk_tok (claim : string) : token :=
   {| t_wellformed := true; t_alg := AlgHMAC; t_signed_with := w_key; t_exp_ok := true; t_nbf_ok := true;
-     t_iat_ok := true; t_fid := "3,01637037d6"; t_names_target := false |}.
-Definition w_rq : request :=
-  {| rq_public := false; rq_method := PUT; rq_query_jwt := "T"; rq_auth := "";
-     rq_path := "/3/01637037d6/x,02637037d6";
-     rq_vid_ok := true; rq_fid_ok := true; rq_upfid_ok := true; rq_same_needle := false; rq_wl_pass := false |}.
+     t_iat_ok := true; t_fid := claim; t_den := claim_den claim; t_names_target := false |}.
+Definition w_tok : token := mk_tok "3,01637037d6".
 Definition w_cfg : config := {| write_key := w_key; read_key := ""; wl_active := false |}.
+Definition mk_rq (m : meth) (path : string) : request :=
+  {| rq_public := false; rq_method := m; rq_query_jwt := "T"; rq_auth := ""; rq_path := path; rq_wl_pass := false |}.
+
+Definition r_rq : request := mk_rq DELETE "/x3,01637037d6".
+Definition r_tab : toktab := [("T", mk_tok "x3,01637037d6")].
+
+(* the store is reached although the only token's claim denotes no file at all *)
+Theorem names_target_refuted : exists tab cfg rq v f a,
+  key_for cfg (is_write_method (rq_method rq)) <> "" /\
+  handle tab cfg rq = Proceed v f a /\
+  forall t, lookup (get_jwt rq) tab = Some t -> claim_den (t_fid t) = None.
+Proof.
+  exists r_tab, w_cfg, r_rq, "x3", "01637037d6", (0, 1, 1668298710)%N.
+  split; [discriminate|]. split; [vm_compute; reflexivity|].
+  intros t H. vm_compute in H. injection H as <-. vm_compute. reflexivity.
+Qed.
+
+(* the run: volume 0 stands in for "x3"; with a volume 0 holding needle 1 the needle is deleted; an
+   unparsable file id reaches the store as needle 0 / cookie 0 and is answered 404 from there *)
+Example refuted_run :
+  trig_delete_unparsed r_rq = true /\
+  handle r_tab w_cfg r_rq = Proceed "x3" "01637037d6" (0, 1, 1668298710)%N /\
+  store_step (handle r_tab w_cfg r_rq) DELETE
+    {| w_vols := [0%N; 3%N]; w_live := [{| n_vol := 0; n_id := 1; n_ck := 1668298710; n_content := 1 |}] |}
+  = {| e_status := 202; e_live := []; e_disclosed := [] |} /\
+  handle [("T", mk_tok "3,zz637037d6")] w_cfg (mk_rq DELETE "/3,zz637037d6") = Proceed "3" "zz637037d6" (3, 0, 0)%N /\
+  handle r_tab w_cfg (mk_rq GET "/x3,01637037d6") = BadRequest /\
+  handle r_tab {| write_key := ""; read_key := w_key; wl_active := false |} (mk_rq GET "/x3,01637037d6") = BadRequest /\
+  handle r_tab w_cfg (mk_rq PUT "/x3,01637037d6") = BadRequest.
+Proof. vm_compute. repeat split. Qed.
+
+(* ---- the former defect of PostHandler: a token for file 1, an upload path whose file name
+   carries file 2 — answered 400 before the store ---- *)
+Definition w_rq : request := mk_rq PUT "/3/01637037d6/x,02637037d6".
 
 Example repaired_witness :
   parse_url_path (rq_path w_rq) = Some ("3", "01637037d6") /\
   upload_fid (rq_path w_rq) = Some "02637037d6" /\
+  parse_path "01637037d6" = Some (1, 1668298710)%N /\ parse_path "02637037d6" = Some (2, 1668298710)%N /\
   handle [("T", w_tok)] w_cfg w_rq = BadRequest.
 Proof. vm_compute. repeat split. Qed.
 
-(* non-vacuity and the textual quirk: the same token on the plain URL is fine, a zero-padded
-   volume id in the claim is refused although it denotes the same volume *)
+(* non-vacuity and the textual quirk: the same token on the plain URL is fine and addresses needle 1,
+   "_1" addresses needle 2 under the token of needle 1, a zero-padded volume id in the claim is refused
+   although it denotes the same volume *)
 Example accept_example :
   let rq := {| rq_public := false; rq_method := DELETE; rq_query_jwt := ""; rq_auth := "Bearer T";
-               rq_path := "/3,01637037d6_1"; rq_vid_ok := true; rq_fid_ok := true; rq_upfid_ok := true;
-               rq_same_needle := true; rq_wl_pass := false |} in
-  let up := {| rq_public := false; rq_method := PUT; rq_query_jwt := "T"; rq_auth := "";
-               rq_path := "/3,01637037d6.txt"; rq_vid_ok := true; rq_fid_ok := true; rq_upfid_ok := true;
-               rq_same_needle := true; rq_wl_pass := false |} in
-  handle [("T", w_tok)] w_cfg rq = Proceed "3" "01637037d6_1" /\
-  handle [("T", w_tok)] w_cfg up = Proceed "3" "01637037d6" /\
-  handle [("T", {| t_wellformed := true; t_alg := AlgHMAC; t_signed_with := w_key; t_exp_ok := true; t_nbf_ok := true;
-                   t_iat_ok := true; t_fid := "03,01637037d6"; t_names_target := true |})] w_cfg rq = Unauthorized /\
+               rq_path := "/3,01637037d6_1"; rq_wl_pass := false |} in
+  let up := mk_rq PUT "/3,01637037d6.txt" in
+  handle [("T", w_tok)] w_cfg rq = Proceed "3" "01637037d6_1" (3, 2, 1668298710)%N /\
+  handle [("T", w_tok)] w_cfg up = Proceed "3" "01637037d6" (3, 1, 1668298710)%N /\
+  trig_delete_unparsed rq = false /\
+  claim_den "3,01637037d6" = Some (3, 1, 1668298710)%N /\ claim_den "03,01637037d6" = Some (3, 1, 1668298710)%N /\
+  handle [("T", mk_tok "03,01637037d6")] w_cfg rq = Unauthorized /\
   handle [("T", {| t_wellformed := true; t_alg := AlgNone; t_signed_with := ""; t_exp_ok := true; t_nbf_ok := true;
-                   t_iat_ok := true; t_fid := "3,01637037d6"; t_names_target := true |})] w_cfg rq = Unauthorized /\
+                   t_iat_ok := true; t_fid := "3,01637037d6"; t_den := None; t_names_target := true |})] w_cfg rq = Unauthorized /\
   handle [] w_cfg rq = Unauthorized.
 Proof. vm_compute. repeat split. Qed.
